@@ -4,7 +4,7 @@
    snapshot written) are validated against Turn.tla's functional form of the pipeline.  Per event:
      RecordSequence    log = ExpectedLog(inp, stash)
      VersionPlusOne    version advances by 1 iff an apply record was emitted (kill switch / yield: 0)
-     SnapshotCadence   a snapshot was written iff the turn committed (cadence 1 in these sessions)
+     SnapshotCadence   a snapshot was written iff the turn committed and its turn id is a multiple of the cadence (1 unless the event says otherwise)
      EntriesWithinOps / NothingWhenClosed / NoWriteOnError   on the number of reflection entries written   *)
 EXTENDS Turn, IOUtils, TLCExt
 
@@ -20,11 +20,15 @@ Inp(e) == [sched |-> e.inp.sched, yield_at |-> e.inp.yield_at, graph |-> e.inp.g
 RunsOk(i) == i.allow_refl /\ i.plan_refl /\ ~i.dry /\ i.refl_out = "ok" /\ "refl_compute" \notin i.faults
 Reaches(lg) == \E p \in 1..Len(lg) : lg[p] = "health"
 
+\* snapshot cadence: events may carry the configured cadence and the turn id (documented rule: a committed turn writes a
+\* snapshot when turn id mod cadence = 0); events without these fields are cadence-1 sessions
+SnapDue(e) == IF "cad" \in DOMAIN e THEN (e.turn % e.cad) = 0 ELSE TRUE
+
 Clause(e) ==
     LET i == Inp(e) IN
     IF e.log # ExpectedLog(i, tstash) THEN "RecordSequence"
     ELSE IF e.dver # (IF HasApply(e.log) THEN 1 ELSE 0) THEN "VersionPlusOne"
-    ELSE IF e.snap # HasApply(e.log) THEN "SnapshotCadence"
+    ELSE IF e.snap # (HasApply(e.log) /\ SnapDue(e)) THEN "SnapshotCadence"
     ELSE IF e.refl_new > i.ops_cap THEN "EntriesWithinOps"
     ELSE IF e.refl_new > 0 /\ ~(RunsOk(i) /\ Reaches(e.log)) THEN "NothingWhenClosed"
     ELSE IF e.refl_new > 1 THEN "EntriesWithinOps"
